@@ -10,6 +10,7 @@ The one stated exception, the heartbeat response in 2.2, is `heartbeat_exception
 -/
 import AioMySensors.Properties.C07
 import AioMySensors.Lemmas.Safe
+import AioMySensors.Lemmas.Resp
 
 namespace AioMySensors.C19
 open AioMySensors M
@@ -136,6 +137,99 @@ theorem across_lines_internal : ∀ v w : Ver, (v = .v14 ∨ v = .v15) → Ver.v
       (((Gen.internalChains w).lookup e.1).join.map (·.base) = ((Gen.internalChains v).lookup e.1).join.map (·.base)) ∧
       (((Gen.internalChains w).lookup e.1).join.map (·.layers) = ((Gen.internalChains v).lookup e.1).join.map (·.layers) ∨
        ((Gen.internalChains w).lookup e.1).join.map (·.layers) = some [.wrap .missingNC]) := by decide
+
+/-! ### Whole histories -/
+
+/-- A history stays within the older protocol `v`: every received line that decodes carries a type
+that exists in `v`, and is not the heartbeat response when the newer protocol is 2.2. -/
+def LineOK (v w : Ver) (line : Str) : Prop :=
+  ∀ m, decode v line = some m → TypeExists v m ∧ ¬ (m.cmd = 3 ∧ m.type = 22 ∧ w = .v22)
+
+def OpOK (v w : Ver) : Op → Prop
+  | .recv _ line _ => LineOK v w line
+  | .send _ _ _ => True
+
+/-- What one operation shows: the outcome (yielded message or error) and the write attempts. -/
+def SameObs (o1 o2 : Obs) : Prop := o1.out = o2.out ∧ o1.writes = o2.writes
+
+/-- The two observation sequences have the same length and agree position by position. -/
+def AllSame : List Obs → List Obs → Prop
+  | [], [] => True
+  | a :: as, b :: bs => SameObs a b ∧ AllSame as bs
+  | _, _ => False
+
+/-- **One operation, two versions.** From states that agree on registry, buffers and on whether a
+version is known — the older gateway running `v`, the newer one `w` on the same line (or both the
+same protocol after a version report) — the same operation produces the same outcome and the same
+writes, and leaves states that agree in the same way. -/
+theorem step_stable (v w : Ver) (hl : SameLine v w = true) (s1 s2 : St) (hs : SimSt v w s1 s2) (op : Op)
+    (hop : OpOK v w op) :
+    SameObs (stepOp s1 op).2 (stepOp s2 op).2 ∧ SimSt v w (stepOp s1 op).1 (stepOp s2 op).1 := by
+  cases op with
+  | send obj b faults =>
+    have h := (resp_apiSend (v := v) (w := w) obj b).run { st := s1, faults := faults } { st := s2, faults := faults }
+      ⟨hs, rfl, rfl⟩
+    simp only [stepOp]
+    cases h1 : apiSend obj b { st := s1, faults := faults } with
+    | mk r1 w1 =>
+      cases h2 : apiSend obj b { st := s2, faults := faults } with
+      | mk r2 w2 =>
+        rw [h1, h2] at h
+        obtain ⟨he, hsim⟩ := h
+        simp only at he
+        subst he
+        cases r1 <;> exact ⟨⟨rfl, hsim.writes⟩, hsim.st⟩
+  | recv env line faults =>
+    -- both gateways decode the line alike
+    have hdec : decode s1.proto line = decode s2.proto line := decode_version_independent _ _ _
+    have key : (recv env line { st := s1, faults := faults }).1 = (recv env line { st := s2, faults := faults }).1 ∧
+        Sim v w (recv env line { st := s1, faults := faults }).2 (recv env line { st := s2, faults := faults }).2 := by
+      simp only [recv, M.bind, M.getSt]
+      rw [← hdec]
+      cases hd : decode s1.proto line with
+      | none => exact ⟨rfl, ⟨hs, rfl, rfl⟩⟩
+      | some m =>
+        simp only []
+        have hsim : Sim v w { st := s1, faults := faults } { st := s2, faults := faults } := ⟨hs, rfl, rfl⟩
+        rcases hs.proto with ⟨hp1, hp2⟩ | hpe
+        · -- the pair under comparison: the newer protocol runs the same computation
+          rw [hp1, hp2]
+          have hdv : decode v line = some m := by rw [← hp1]; exact hd
+          obtain ⟨hex, hhb⟩ := hop m hdv
+          rw [step_stable_same_line env v w hl m (decode_cmd_range hdv) hex hhb]
+          exact (resp_dispatch env w m).run _ _ hsim
+        · rw [← hpe]
+          exact (resp_dispatch env s1.proto m).run _ _ hsim
+    simp only [stepOp]
+    cases h1 : recv env line { st := s1, faults := faults } with
+    | mk r1 w1 =>
+      cases h2 : recv env line { st := s2, faults := faults } with
+      | mk r2 w2 =>
+        rw [h1, h2] at key
+        obtain ⟨he, hsim⟩ := key
+        simp only at he
+        subst he
+        cases r1 <;> exact ⟨⟨rfl, hsim.writes⟩, hsim.st⟩
+
+/-- **Every history.** Two gateways of the same major line, started from states that agree, fed
+the same history whose message types all exist in the older protocol (heartbeat responses excluded
+when the newer one is 2.2): the yielded messages, the errors, the writes, the registry and both
+buffers are the same at every step — by induction over the history, with arbitrary write faults
+and `send` calls interleaved. -/
+theorem history_stable (v w : Ver) (hl : SameLine v w = true) (ops : List Op) (hops : ∀ op ∈ ops, OpOK v w op)
+    (s1 s2 : St) (hs : SimSt v w s1 s2) :
+    AllSame (run s1 ops).2 (run s2 ops).2 ∧ SimSt v w (stateAfter s1 ops) (stateAfter s2 ops) := by
+  induction ops generalizing s1 s2 with
+  | nil => exact ⟨by simp [run, AllSame], by simpa [stateAfter, run] using hs⟩
+  | cons op ops ih =>
+    obtain ⟨hobs, hst⟩ := step_stable v w hl s1 s2 hs op (hops op (by simp))
+    obtain ⟨h1, h2⟩ := ih (fun o ho => hops o (by simp [ho])) _ _ hst
+    exact ⟨by simpa [run, AllSame] using ⟨hobs, h1⟩, by simpa [stateAfter, run] using h2⟩
+
+/-- Two fresh gateways that were told their versions agree in the required way. -/
+theorem fresh_similar (v w : Ver) (pv1 pv2 : Str) :
+    SimSt v w { pv := some pv1, proto := v } { pv := some pv2, proto := w } :=
+  ⟨rfl, rfl, rfl, rfl, Or.inl ⟨rfl, rfl⟩⟩
 
 /-! Non-vacuity -/
 example : TypeExists .v14 ⟨1, 255, 3, 0, 6, []⟩ := by constructor <;> decide
